@@ -45,6 +45,11 @@ class BufferingDestination(object):
             self.messages.pop(0)
 
 
+# Taken only by a forked child that replaces the lock it inherited, see
+# Destinations._get_buffering_lock:
+_AFTER_FORK_LOCK = Lock()
+
+
 class Destinations(object):
     """
     Manage a list of destinations for message dictionaries.
@@ -62,7 +67,24 @@ class Destinations(object):
         # another thread during the hand-over is not lost. Not used once
         # destinations have been added.
         self._buffering_lock = RLock()
+        self._buffering_lock_pid = os.getpid()
         self._handing_over = False
+
+    def _get_buffering_lock(self):
+        """
+        The lock held while messages are buffered and handed over.
+
+        A process forked while another thread was logging inherits the lock
+        in its locked state, with no thread left to release it: a process
+        other than the one the lock was made in gets a lock of its own.
+        """
+        pid = os.getpid()
+        if pid != self._buffering_lock_pid:
+            with _AFTER_FORK_LOCK:
+                if pid != self._buffering_lock_pid:
+                    self._buffering_lock = RLock()
+                    self._buffering_lock_pid = pid
+        return self._buffering_lock
 
     def addGlobalFields(self, **fields):
         """
@@ -89,7 +111,7 @@ class Destinations(object):
         if self._any_added:
             self._send(message, logger)
         else:
-            with self._buffering_lock:
+            with self._get_buffering_lock():
                 self._send(message, logger)
 
     def _send(self, message, logger):
@@ -150,7 +172,7 @@ class Destinations(object):
             dictionaries.
         """
         if not self._any_added:
-            with self._buffering_lock:
+            with self._get_buffering_lock():
                 if not self._any_added and not self._handing_over:
                     # These are first set of messages added, so we need to
                     # clear BufferingDestination. (_handing_over: a
@@ -545,16 +567,3 @@ def to_file(output_file, encoder=None, json_default=json_default):
 
 # The default Logger, used when none is specified:
 _DEFAULT_LOGGER = Logger()
-
-
-def _new_buffering_lock_after_fork():
-    """
-    A process forked while another thread was logging (before any destination
-    had been added) inherits the buffering lock in its locked state, with no
-    thread left to release it: give the child a lock of its own.
-    """
-    Logger._destinations._buffering_lock = RLock()
-
-
-if hasattr(os, "register_at_fork"):
-    os.register_at_fork(after_in_child=_new_buffering_lock_after_fork)
